@@ -292,6 +292,16 @@ func registerStd(e *Engine) {
 	// ---- bytes / strings helpers implemented natively on concrete data
 	R("bytes.Equal", func(fr *frame, a []value) value {
 		x, y := a[0].([]value), a[1].([]value)
+		// the pseudo-element of big.Int.Bytes() stands for a whole byte string
+		if xb, ok := soleBigBytes(x); ok {
+			if yb, ok := soleBigBytes(y); ok {
+				return mkBool(Eq(xb.T, yb.T))
+			}
+			return mkBool(bigBytesEqConcrete(xb, y))
+		}
+		if yb, ok := soleBigBytes(y); ok {
+			return mkBool(bigBytesEqConcrete(yb, x))
+		}
 		if len(x) != len(y) {
 			return false
 		}
